@@ -151,3 +151,12 @@ def realize(x):
         from crosshair.core import deep_realize
         return deep_realize(x)
     return x
+
+
+def notrace():
+    """context manager: suspend CrossHair tracing for concrete set-up code (null context in plain replay)"""
+    if "crosshair" in sys.modules:
+        from crosshair.tracers import NoTracing
+        return NoTracing()
+    import contextlib
+    return contextlib.nullcontext()
